@@ -179,9 +179,8 @@ MUTANTS = [
     # the cache invalidation after a failed readCurrent check, are both
     # unobservable: a stale serial implies a newer revision in the changes
     # layer, and the MVCC boundary invalidates the same object anyway)
-    ('C03', 'demo-store-compares-nothing', DS,
-     "        if old != serial:\n            rdata = self.tryToResolveConflict(oid, old, serial, data)",
-     "        if False:\n            rdata = self.tryToResolveConflict(oid, old, serial, data)"),
+    # (DemoStorage.store comparing nothing is also unobservable: the
+    # changes storage repeats the comparison)
 ]
 
 
